@@ -259,12 +259,11 @@ Definition h_set_vring_enable (s : dstate) (q : N) (e : bool) : dstate * dres :=
            let r1 := with_ring r (r_ready r) e (r_kick r) (r_call r) in
            (update_reg (put_ring s q r1) r1 q, DOk [])
        end.
-Definition is_pow2 (n : N) : bool := popcount n =? 1.
 Definition h_set_vring_num (s : dstate) (q n : N) : dstate * dres :=
   match get_ring s q with
   | None => (s, DErr)
   | Some r =>
-      if (n =? 0) || (d_maxq s <? n) || negb (is_pow2 n) then (s, DErr)
+      if num_bad n (d_maxq s) then (s, DErr)       (* the size test regenerated from handler.rs set_vring_num *)
       else
         (put_ring s q {| r_ready := r_ready r; r_enabled := r_enabled r; r_kick := r_kick r; r_call := r_call r; r_err := r_err r;
                          r_size := n; r_next_avail := r_next_avail r; r_next_used := r_next_used r;
